@@ -8,6 +8,7 @@ structure Slice where
   buf : Array UInt8
   start : Nat
   stop : Nat
+  deriving DecidableEq
 
 namespace Slice
 
